@@ -110,6 +110,7 @@ class Interp:
         self.frames = []
         self.concrete_loops = False
         self.name_intervals = True
+        self.symbolic_tables = None     # id(list) -> name: lookups with a bit-field index stay symbolic
         self.callsites_seen = set()
 
     # ------------------------------------------------------------------ util
@@ -233,6 +234,11 @@ class Interp:
                 if 0 <= i < len(v):
                     return rec(v[i], p[1:])
                 return TOP
+            if isinstance(i, tuple) and i and i[0] in ('bf', 'shr', 'l') and len(p) == 1 and isinstance(v, list) \
+                    and self.symbolic_tables and id(v) in self.symbolic_tables:
+                ri = rng(i, st.sym)
+                if ri is not None and 0 <= ri[0] and ri[1] < len(v):
+                    return ('tl', self.symbolic_tables[id(v)], i)
             if isinstance(i, tuple) and is_int(i):
                 r = rng(i, st.sym)
                 lo, hi = (0, len(v) - 1) if r is None else (max(0, r[0]), min(len(v) - 1, r[1]))
@@ -352,6 +358,8 @@ class Interp:
             if off == C(0):
                 return p
             return ('ptop', 'arith-on-field', False)
+        if last == 0 and off[0] in ('shr', 'bf', 'byte', 'tl'):
+            return P(obj, path[:-1] + (off,))
         nv = binop('+', C(last) if isinstance(last, int) else last, off, st.sym)
         ni = nv[1] if nv[0] == 'c' else nv
         return P(obj, path[:-1] + (ni,))
